@@ -21,7 +21,7 @@ def s_transform_conj(x):
 def replay(info, ce):
     from eqsig import stockwell
     rng = np.random.RandomState(5)
-    for n in (4, 5, 8, 9, 16, 33):
+    for n in (4, 5, 8, 9, 16, 33, 258, 259):           # 258/259: 129 = 128 + 1 rows
         x = rng.randn(n)
         want, X = s_transform_conj(x)
         for nm in ('transform', 'transform_w_scipy_fft'):
